@@ -43,7 +43,12 @@ func (ex *Executor) ctxLookup(st *State, ctx *CtxV, keyName string) Value {
 			}
 		}
 	}
-	return App("ctxval!"+keyName, SInt, ctx.Base)
+	v := App("ctxval!"+keyName, SInt, ctx.Base)
+	if keyName == "pid" {
+		// wiring: only authboss stores CTXKeyPID, and it stores a string
+		st.Fact(Eq(App("is!string", SBool, v), Neq(v, IntLit(0))))
+	}
+	return v
 }
 
 func isNamedType(t types.Type, pkg, name string) bool {
